@@ -214,7 +214,8 @@ def replay_hh(cex):
 
 # ------------------------------------------------------------------------------------------- _func / _find_base
 def ob_func_char(timeout_ms):
-    """real-idealised: _func(b, max_count, num_reserved, uint_max) == 0  <=>  value(uint_max) == max_count   (b > 1)"""
+    """real-idealised: (value(uint_max) - max_count) * (b - 1) == _func(b, max_count, num_reserved, uint_max) for b > 1:
+    the distance of the decoded ceiling from max_count is _func(b)/(b - 1); in particular _func(b) == 0 <=> they agree"""
     C = cmh.cm()
     stats = common.Stats()
     ex = Executor(fpmode="real")
@@ -228,10 +229,10 @@ def ob_func_char(timeout_ms):
         return {"status": "unknown", "note": f"{len(outs)} outcomes", "funcs": funcs}
     s, rv = outs[0]
     val = realmode.value_ref(uI, nrI, b)
-    goal = (rv.t == 0) == (val == z3.ToReal(mI))
+    goal = z3.And((val - z3.ToReal(mI)) * (b - 1) == rv.t, (rv.t == 0) == (val == z3.ToReal(mI)))
     ax, cnt = realmode.instantiate(list(s.pc) + [goal], b)
     wraps = [c for k, c in s.oblig]
-    r, m = common.z3check_race(list(s.pc) + ax + [z3.Or(z3.Not(goal), *wraps)], timeout_ms, stats, label="_func(b)=0 <=> value(uint_max)=max_count (real-idealised)")
+    r, m = common.z3check_race(list(s.pc) + ax + [z3.Or(z3.Not(goal), *wraps)], timeout_ms, stats, label="(value(uint_max) - max_count)(b - 1) == _func(b) (real-idealised)")
     if r == "unsat":
         return {"status": "proved", "stats": stats.as_dict(), "funcs": funcs, "axiom_instances": cnt}
     if r != "sat":
@@ -240,10 +241,19 @@ def ob_func_char(timeout_ms):
     return {"status": "cex", "stats": stats.as_dict(), "funcs": funcs, "cex": cex, "replay": replay(cex), "finding_key": "func-char"}
 
 
+TOL = 1e-6     # "decodes to max_count": relative tolerance of the claim and of the replays
+
+
 def ob_find_base_plumbing(timeout_ms):
-    """_find_base with _func/_funcprime recorded: every Newton step is base - _func(base, P)/_funcprime(base, P) with P
-    exactly the parameters given to _find_base (as mathematical integers: a narrowing cast would show here), 200 steps,
-    ValueError iff the final base < 1.000000001"""
+    """_find_base with _func/_funcprime recorded (each call yields a fresh real; _func itself is decided by ob_func_char):
+      (a) every call receives exactly the constructor's max_count / num_reserved / uint_max as mathematical integers (a
+          narrowing cast shows here);
+      (b) every outcome that does not return raises ValueError;
+      (c) CERTIFICATE: on the returning path the returned base b satisfies b >= 1.000000001 and the code has evaluated
+          _func at exactly b with |_func(b)| <= 1e-6 * max_count * (b - 1) in its path condition -- with ob_func_char
+          (value(ceiling) - max_count == _func(b)/(b - 1)) this is "the ceiling decodes to max_count" for EVERY accepted
+          configuration, whatever the 200 Newton steps did.  Without such a guard nothing in the code ties the returned
+          iterate to the equation, and the replay looks for an accepted configuration whose ceiling is off."""
     C = cmh.cm()
     stats = common.Stats()
     calls = []
@@ -264,34 +274,44 @@ def ob_find_base_plumbing(timeout_ms):
     st.pc += [nrI >= 0, nrI < uI, uI <= 65535, uI >= 1, mI > nrI, mI < (1 << 64), mI >= 2]
     outs = ex.call_dispatcher(C._find_base, st, [Val(types.uint64, z3.Int2BV(mI, 64)), Val(types.uint32, z3.Int2BV(nrI, 32)), Val(types.uint32, z3.Int2BV(uI, 32))])
     funcs = sorted(ex.funcs_encoded)
-    rets = [(s, v) for s, v in outs if not (isinstance(v, tuple) and v and v[0] == "raise")]
-    raises = [(s, v) for s, v in outs if isinstance(v, tuple) and v and v[0] == "raise"]
-    if len(rets) != 1 or len(raises) != 1:
+    rets = [(s_, v) for s_, v in outs if not (isinstance(v, tuple) and v and v[0] == "raise")]
+    raises = [(s_, v) for s_, v in outs if isinstance(v, tuple) and v and v[0] == "raise"]
+    if len(rets) != 1 or not raises:
         return {"status": "unknown", "funcs": funcs, "note": f"{len(rets)} returning / {len(raises)} raising outcomes"}
     s_ok, rv = rets[0]
-    s_bad, exc = raises[0]
     nf = [c for c in calls if c[0] == "f"]
-    nfp = [c for c in calls if c[0] == "fp"]
     import fractions
     thr = z3.RealVal(str(fractions.Fraction(1.000000001)))  # the float64 literal in the source, exactly
-    goals = [("200 Newton steps, one _func and one _funcprime call each", z3.BoolVal(len(nf) == 200 and len(nfp) == 200)),
-             ("every call receives exactly the constructor's max_count, num_reserved and uint_max", z3.And(*[z3.And(c[2] == mI, c[3] == nrI, c[4] == uI) for c in calls if c[2] is not None and c[3] is not None and c[4] is not None]) if all(c[2] is not None for c in calls) else z3.BoolVal(False)),
-             ("step k evaluates both functions at the current iterate and the next iterate is base - f/f'", z3.And(*[z3.And(a[1] == b_[1]) for a, b_ in zip(nf, nfp)] + [nf[i + 1][1] == nf[i][1] - nf[i][5] / nfp[i][5] for i in range(min(len(nf), len(nfp)) - 1)]))]
-    last = nf[-1][1] - nf[-1][5] / nfp[-1][5] if nf and nfp else z3.RealVal(0)
-    goals.append(("returns the last iterate when it is >= 1.000000001", z3.And(rv.t == last, z3.Implies(z3.And(*s_ok.pc), last >= thr))))
-    goals.append(("raises ValueError exactly when the last iterate is < 1.000000001", z3.And(z3.BoolVal(exc[1] is ValueError), z3.Implies(z3.And(*s_bad.pc), last < thr))))
-    pc_common = [c for c in s_ok.pc if any(c.eq(d) for d in s_bad.pc)]
-    for name, g in goals:
-        r, m = common.z3check(pc_common + [z3.Not(g)], timeout_ms, stats, label="_find_base plumbing: " + name)
-        if r == "unsat":
-            continue
-        if r != "sat":
-            return {"status": "unknown", "stats": stats.as_dict(), "funcs": funcs, "note": f"{r} on {name}"}
-        mc = m.eval(mI, model_completion=True).as_long()
-        # prefer a replayable configuration: keep max_count, pick the model's num_reserved if it is a legal log8/log16 one
-        cex = {"kind": "find-base", "max_count": mc, "num_reserved": m.eval(nrI, model_completion=True).as_long(), "clause": name}
+    tol = z3.RealVal(str(fractions.Fraction(TOL)))
+    pc_ok = list(s_ok.pc)
+
+    def fail(name, m):
+        mc = m.eval(mI, model_completion=True).as_long() if m is not None else (1 << 32) - 1
+        nr = m.eval(nrI, model_completion=True).as_long() if m is not None else 250
+        cex = {"kind": "find-base", "max_count": mc, "num_reserved": nr, "clause": name}
         return {"status": "cex", "stats": stats.as_dict(), "funcs": funcs, "cex": cex, "replay": replay(cex), "finding_key": "find-base:" + name[:20]}
-    return {"status": "proved", "stats": stats.as_dict(), "funcs": funcs}
+    goals = [("at least 200 Newton steps call _func and _funcprime", z3.BoolVal(len(nf) >= 200 and len([c for c in calls if c[0] == "fp"]) >= 200)),
+             ("every call receives exactly the constructor's max_count, num_reserved and uint_max", z3.And(*[z3.And(c[2] == mI, c[3] == nrI, c[4] == uI) for c in calls]) if all(c[2] is not None and c[3] is not None and c[4] is not None for c in calls) else z3.BoolVal(False)),
+             ("every non-returning outcome raises ValueError", z3.BoolVal(all(v[1] is ValueError for _s, v in raises))),
+             ("the returned base is >= 1.000000001", rv.t >= thr)]
+    for name, g in goals:
+        r, m = common.z3check(pc_ok + [z3.Not(g)], timeout_ms, stats, label="_find_base: " + name)
+        if r == "sat":
+            return fail(name, m)
+        if r != "unsat":
+            return {"status": "unknown", "stats": stats.as_dict(), "funcs": funcs, "note": f"{r} on {name}"}
+    # (c) the certificate: some recorded _func call was made AT the returned base and its result is bounded on the path
+    name = "accepted => the code checked |_func(returned base)| <= 1e-6 * max_count * (base - 1) (the ceiling decodes to max_count)"
+    model = None
+    for c in reversed(nf[-3:]):
+        cert = z3.And(c[1] == rv.t, z3.If(c[5] >= 0, c[5], -c[5]) <= tol * z3.ToReal(mI) * (rv.t - 1))
+        r, m = common.z3check(pc_ok + [z3.Not(cert)], timeout_ms, stats, label="_find_base: certificate on the returning path")
+        if r == "unsat":
+            return {"status": "proved", "stats": stats.as_dict(), "funcs": funcs, "note": f"{len(nf)} _func calls, certificate found"}
+        if r != "sat":
+            return {"status": "unknown", "stats": stats.as_dict(), "funcs": funcs, "note": f"{r} on the certificate query"}
+        model = model or m
+    return fail(name, model)
 
 
 def replay_find_base(cex):
@@ -303,10 +323,10 @@ def replay_find_base(cex):
     for mc in [cex["max_count"], cex["max_count"] + 1000, cex["max_count"] | 123456]:
       if mc >= (1 << 64):
         continue
-      for bits, cls, nrs in ((8, C.CountMinLog8, [cex["num_reserved"], 15, 0, 100]), (16, C.CountMinLog16, [cex["num_reserved"], 1023, 0, 30000])):
+      for bits, cls, nrs in ((8, C.CountMinLog8, [cex["num_reserved"], 15, 0, 100, 200, 230, 240, 245, 250, 252, 253, 254]), (16, C.CountMinLog16, [cex["num_reserved"], 1023, 0, 30000, 57000, 60000, 62000, 64000, 65000, 65500, 65530, 65533, 65534])):
         umax = logh.UMAX[bits]
         for nr in nrs:
-            if not (0 <= nr < umax - 4) or nr >= mc or (bits, nr, mc) in tried:
+            if not (0 <= nr < umax) or nr >= mc or (bits, nr, mc) in tried:
                 continue
             tried.append((bits, nr, mc))
             try:
@@ -317,7 +337,7 @@ def replay_find_base(cex):
                 fails.append(f"CountMinLog{bits}(max_count={mc}, num_reserved={nr}) raised {type(e).__name__}: {e} (neither a sketch nor the documented ValueError)")
                 continue
             top = float(C._counter2value(umax, nr, sk.base))
-            if not (abs(top - mc) <= 1e-6 * mc):
+            if not (abs(top - mc) <= 2 * TOL * mc):
                 fails.append(f"CountMinLog{bits}(max_count={mc}, num_reserved={nr}) accepted with base={float(sk.base)!r} but the ceiling counter decodes to {top}, not max_count")
     return {"reproduced": bool(fails), "how": "real constructors CountMinLog8/16(width=2, depth=1, max_count, num_reserved); ceiling decoded with _counter2value(uint_maxval)", "tried": tried, "failed_clauses": fails[:4]}
 
@@ -363,7 +383,7 @@ def main():
     for bits in (8, 16):
         for grp in ("never below either input", "max_count => ceiling"):
             obs.append(common.Ob(f"log{bits} merge (real-idealised): {grp}", realmode.ob_merge_ideal, (bits, tmo, grp), hard_s=tmo / 1000 * 3 + 120, bounds={"bits": bits}))
-    obs.append(common.Ob("_func(b) = 0 <=> the ceiling decodes to max_count (real-idealised)", ob_func_char, (tmo,), hard_s=tmo / 1000 + 120, bounds={"uint_max": "1..65535 symbolic", "max_count": "< 2^63 symbolic"}))
+    obs.append(common.Ob("_func(b) == (decoded ceiling - max_count) * (b - 1) (real-idealised)", ob_func_char, (tmo,), hard_s=tmo / 1000 + 120, bounds={"uint_max": "1..65535 symbolic", "max_count": "< 2^63 symbolic"}))
     obs.append(common.Ob("_find_base: 200 Newton steps on exactly the given parameters; ValueError iff base < 1.000000001", ob_find_base_plumbing, (tmo,), hard_s=tmo / 1000 * 6 + 300, bounds={"max_count": "all uint64", "loop": "200 iterations unrolled"}))
     from engine import wrun
     wobs, wmeta = wrun.obligations("c18", tier)
